@@ -143,13 +143,16 @@ func vfC20ServerCase(t *testing.T, k *vfKit, caseID string, r *rand.Rand) {
 	for i := range plans {
 		to := time.Duration(200+r.Intn(2800)) * time.Millisecond
 		plans[i] = vfC20RespondPlan{
-			ID: fmt.Sprintf("%s-att%d", caseID, i), Mode: modes[r.Intn(len(modes))],
+			ID: vfC20AttemptID(r, fmt.Sprintf("%s-att%d", caseID, i), 4096), Mode: modes[r.Intn(len(modes))],
 			StartAt: time.Duration(1+r.Intn(300)) * time.Millisecond,
 			Timeout: to, Every: time.Duration(10+r.Intn(490)) * time.Millisecond,
 			At: time.Duration(1+r.Intn(int(to/time.Millisecond)-1)) * time.Millisecond,
 		}
 		peers[i] = netip.AddrPortFrom(netip.AddrFrom4([4]byte{203, 0, 113, byte(10 + i)}), uint16(30000+r.Intn(1000)))
 		plans[i].Peer = peers[i].String()
+	}
+	if sw := vfC20SwapCase(plans[0].ID); sw != plans[0].ID && r.Intn(4) == 0 {
+		plans[1].ID = sw // two attempts whose ids differ only in case run side by side
 	}
 	rep := map[string]any{"case_id": caseID, "plans": plans}
 	local := []netip.AddrPort{netip.MustParseAddrPort("127.0.0.1:4433")}
@@ -209,7 +212,7 @@ func vfC20ServerCase(t *testing.T, k *vfKit, caseID string, r *rand.Rand) {
 	// a Respond call that must be refused (or end at once), then a valid one with the same id
 	refKinds := []string{"no-peers", "invalid-peers", "family-mismatch", "forced-family-mismatch", "neg-timeout", "neg-interval", "bad-metadata", "empty-id", "cancelled-ctx"}
 	refKind := refKinds[r.Intn(len(refKinds))]
-	refID := caseID + "-ref"
+	refID := vfC20AttemptID(r, caseID+"-ref", 4096)
 	refMeta := vfC20RandMeta(r)
 	refPeer := netip.AddrPortFrom(netip.AddrFrom4([4]byte{203, 0, 113, 77}), uint16(31000+r.Intn(1000)))
 	refAt := time.Duration(1+r.Intn(400)) * time.Millisecond
